@@ -1,6 +1,876 @@
-//! run-ta: replays TaExchange.tla behaviours (C15).
-use std::path::Path;
+//! run-ta: replays TaExchange.tla behaviours (C15) on the real trust
+//! anchor proxy (`CaManager::ta_proxy_*`, `rfc6492` hand-over for local TA
+//! children) and the real trust anchor signer
+//! (`krill::cli::ta::signer::TrustAnchorSignerManager`, the offline signer
+//! of `krillta`, which runs the same `TrustAnchorSigner` aggregate as the
+//! embedded one).
+//!
+//! World: environment A holds the proxy "pA", the repository and the
+//! local TA children ca1, ca2; signer S1 is the associated signer, S2 is
+//! another signer instance initialised for the same proxy (own TA key and
+//! identity); environment B holds another proxy "pB". Messages are the
+//! real signed JSON messages; altered ones are made from them with serde
+//! or by signing the same content with other keys.
 
-pub fn run(_behaviours: &Path, _out: &Path, _workdir: &Path) {
-    unimplemented!()
+use std::collections::{BTreeMap, BTreeSet, HashMap};
+use std::path::{Path, PathBuf};
+use std::str::FromStr;
+use chrono::Duration;
+use krill::api::admin::RepositoryContact;
+use krill::api::ta::{
+    TrustAnchorSignedRequest, TrustAnchorSignedResponse,
+    TrustAnchorSignerRequest, TrustAnchorSignerResponse,
+};
+use krill::cli::ta::signer::{SignerInitInfo, TrustAnchorSignerManager};
+use rpki::ca::idexchange::CaHandle;
+use rpki::crypto::KeyIdentifier;
+use rpki::repository::crl::Crl;
+use rpki::repository::manifest::Manifest;
+use rpki::uri;
+use serde_json::{json, Value};
+use crate::common::*;
+use crate::world;
+
+const CHILDREN: &[&str] = &["ca1", "ca2"];
+
+fn ta() -> CaHandle {
+    world::ca_handle("ta")
+}
+
+fn hash_str(s: &str) -> u64 {
+    use std::hash::{Hash, Hasher};
+    let mut h = std::collections::hash_map::DefaultHasher::new();
+    s.hash(&mut h);
+    h.finish()
+}
+
+/// Canonical text of a serialisable value (hash map order removed).
+fn canon<T: serde::Serialize>(value: &T) -> String {
+    fn norm(v: Value) -> Value {
+        match v {
+            Value::Array(items) => {
+                let mut items: Vec<Value> = items.into_iter().map(norm)
+                    .collect();
+                items.sort_by_key(|i| i.to_string());
+                Value::Array(items)
+            }
+            Value::Object(map) => {
+                Value::Object(map.into_iter().map(|(k, v)| {
+                    (k, norm(v))
+                }).collect())
+            }
+            other => other,
+        }
+    }
+    norm(serde_json::to_value(value).unwrap_or(Value::Null)).to_string()
+}
+
+fn walk(dir: &Path, base: &Path, out: &mut Vec<String>) {
+    let Ok(rd) = std::fs::read_dir(dir) else { return };
+    for entry in rd.flatten() {
+        let path = entry.path();
+        let Ok(meta) = entry.metadata() else { continue };
+        if meta.is_dir() {
+            walk(&path, base, out);
+        }
+        else {
+            use std::os::unix::fs::MetadataExt;
+            out.push(format!(
+                "{}:{}:{}.{}",
+                path.strip_prefix(base).unwrap_or(&path).display(),
+                meta.len(), meta.mtime(), meta.mtime_nsec(),
+            ));
+        }
+    }
+}
+
+fn disk_hash(dir: &Path) -> u64 {
+    let mut files = Vec::new();
+    walk(dir, dir, &mut files);
+    files.sort();
+    hash_str(&files.join("\n"))
+}
+
+/// One real message with its abstract description.
+struct Msg {
+    /// "req" or "resp"
+    t: &'static str,
+    /// the message as JSON (TrustAnchorSignedRequest / -Response)
+    json: Value,
+}
+
+struct SignerInst {
+    dir: PathBuf,
+    mgr: TrustAnchorSignerManager,
+}
+
+struct World {
+    dir: PathBuf,
+    env: Env,
+    env_b: Option<Env>,
+    signers: BTreeMap<String, SignerInst>,
+    ta_key_pem: String,
+    /// identity key -> model name
+    idnames: HashMap<KeyIdentifier, String>,
+    nonces: Vec<String>,
+    /// per child: certificate keys in order of first appearance
+    ckeys: HashMap<String, Vec<KeyIdentifier>>,
+    msgs: Vec<Msg>,
+    reinits: usize,
+    /// identity keys of the signers and other keys used for signing
+    known_keys: Vec<(rpki::crypto::PublicKey, String)>,
+    rand_key: Option<KeyIdentifier>,
+}
+
+fn short(s: &str) -> String {
+    s.chars().take(200).collect()
+}
+
+impl World {
+    fn signer_config(dir: &Path) -> krill::tasigner::Config {
+        krill::tasigner::Config::parse_str(&format!(
+            "storage_uri = \"{}/\"\nlog_type = \"stderr\"\n\
+             log_level = \"off\"\n",
+            dir.display()
+        )).unwrap()
+    }
+
+    fn create(dir: &Path) -> Result<Self, String> {
+        let _ = std::fs::remove_dir_all(dir);
+        let env = Env::create(&dir.join("a"), EnvOpts::default())?;
+        world::init_repo(&env)?;
+        let actor = world::actor(&env);
+        let cam = env.krill.ca_manager();
+        cam.ta_proxy_init(&env.krill).map_err(|e| format!("proxy: {e}"))?;
+        let pub_req = cam.ta_proxy_publisher_request().map_err(|e| {
+            e.to_string()
+        })?;
+        env.krill.repo_manager().create_publisher(pub_req, &actor).map_err(
+            |e| format!("ta publisher: {e}")
+        )?;
+        let response = env.krill.repo_manager().repository_response(
+            &ta().convert(), &env.krill
+        ).map_err(|e| e.to_string())?;
+        let contact = RepositoryContact::try_from_response(response)
+            .map_err(|e| e.to_string())?;
+        cam.ta_proxy_repository_update(contact, &actor, &env.krill).map_err(
+            |e| format!("ta repo: {e}")
+        )?;
+        // the TA key: one key pair that is imported by every signer that
+        // is (re-)initialised as the signer of this TA
+        let der = krill::verif::take_pooled_key().map(Ok).unwrap_or_else(|| {
+            openssl::rsa::Rsa::generate(2048).and_then(|rsa| {
+                openssl::pkey::PKey::from_rsa(rsa)
+            }).and_then(|k| k.private_key_to_der())
+        }).map_err(|e| e.to_string())?;
+        let pkey = openssl::pkey::PKey::private_key_from_der(&der).map_err(
+            |e| e.to_string()
+        )?;
+        let ta_key_pem = String::from_utf8(
+            pkey.rsa().and_then(|r| r.private_key_to_pem()).map_err(|e| {
+                e.to_string()
+            })?
+        ).map_err(|e| e.to_string())?;
+        let mut w = World {
+            dir: dir.into(), env, env_b: None, signers: BTreeMap::new(),
+            ta_key_pem, idnames: HashMap::new(), nonces: Vec::new(),
+            ckeys: HashMap::new(), msgs: Vec::new(), reinits: 0,
+            known_keys: Vec::new(), rand_key: None,
+        };
+        let proxy_ki = w.env.krill.ca_manager().ta_proxy_id().map_err(|e| {
+            e.to_string()
+        })?.public_key.key_identifier();
+        w.idnames.insert(proxy_ki, "pA".into());
+        // associated signer S1 and the other instance S2
+        w.init_signer("S1", "g1", true, 1)?;
+        w.init_signer("S2", "g2", false, 1)?;
+        let info = w.signers["S1"].mgr.show().map_err(|e| e.to_string())?;
+        w.env.krill.ca_manager().ta_proxy_signer_add(
+            info, &actor, &w.env.krill
+        ).map_err(|e| format!("signer add: {e}"))?;
+        // children
+        for (i, child) in CHILDREN.iter().enumerate() {
+            let handle = world::ca_handle(child);
+            world::create_ca(&w.env, &handle)?;
+            world::connect_to_parent(
+                &w.env, &handle, &ta(),
+                world::resources("", &format!("10.{i}.0.0/16"), ""),
+            )?;
+        }
+        w.publish_ta();
+        Ok(w)
+    }
+
+    fn init_signer(
+        &mut self, name: &str, idname: &str, ta_key: bool, number: u64,
+    ) -> Result<(), String> {
+        let dir = self.dir.join(format!("{name}-{}", self.reinits));
+        let _ = std::fs::remove_dir_all(&dir);
+        std::fs::create_dir_all(&dir).map_err(|e| e.to_string())?;
+        let mgr = TrustAnchorSignerManager::create(
+            Self::signer_config(&dir)
+        ).map_err(|e| format!("signer create: {e}"))?;
+        let cam = self.env.krill.ca_manager();
+        let proxy_id = cam.ta_proxy_id().map_err(|e| e.to_string())?;
+        let contact = cam.ta_proxy_repository_contact().map_err(|e| {
+            e.to_string()
+        })?;
+        mgr.init(SignerInitInfo {
+            proxy_id,
+            repo_info: contact.repo_info,
+            tal_https: vec![uri::Https::from_str(
+                "https://repo.example.net/ta/ta.cer"
+            ).unwrap()],
+            tal_rsync: uri::Rsync::from_str(
+                "rsync://repo.example.net/ta/ta.cer"
+            ).unwrap(),
+            private_key_pem: if ta_key {
+                Some(self.ta_key_pem.clone())
+            } else { None },
+            ta_mft_nr_override: Some(number),
+        }).map_err(|e| format!("signer init: {e}"))?;
+        let info = mgr.show().map_err(|e| e.to_string())?;
+        self.idnames.insert(
+            info.id.public_key.key_identifier(), idname.into()
+        );
+        self.known_keys.push((info.id.public_key.clone(), idname.into()));
+        self.signers.insert(name.into(), SignerInst { dir, mgr });
+        Ok(())
+    }
+
+    //--- projection ---------------------------------------------------------
+
+    fn nonce_id(&mut self, nonce: &str) -> usize {
+        if let Some(pos) = self.nonces.iter().position(|n| n == nonce) {
+            return pos + 1
+        }
+        self.nonces.push(nonce.into());
+        self.nonces.len()
+    }
+
+    fn ckey_name(&mut self, child: &str, ki: &KeyIdentifier) -> String {
+        let keys = self.ckeys.entry(child.into()).or_default();
+        let pos = match keys.iter().position(|k| k == ki) {
+            Some(pos) => pos,
+            None => { keys.push(*ki); keys.len() - 1 }
+        };
+        format!("k{}", (b'a' + pos as u8) as char)
+    }
+
+    /// "i:ka" / "r:ka" for the entries of a key -> request/response map.
+    fn req_ids(&mut self, child: &str, map: &Value) -> Vec<String> {
+        let mut res = Vec::new();
+        if let Some(map) = map.as_object() {
+            for (key, val) in map {
+                let Ok(ki) = KeyIdentifier::from_str(key) else { continue };
+                let kind = if val.get("Issuance").is_some() { "i" }
+                    else if val.get("Revocation").is_some() { "r" }
+                    else { "e" };
+                res.push(format!("{kind}:{}", self.ckey_name(child, &ki)));
+            }
+        }
+        res.sort();
+        res
+    }
+
+    fn id_name(&self, ki: &KeyIdentifier) -> String {
+        self.idnames.get(ki).cloned().unwrap_or_else(|| format!("?{ki}"))
+    }
+
+    /// Manifest and CRL numbers decoded from a set of published files.
+    fn numbers(files: &[krill::api::admin::PublishedFile]) -> (i64, i64) {
+        let mut mft = -1;
+        let mut crl = -1;
+        for file in files {
+            let name = file.uri.to_string();
+            let bytes = file.base64.to_bytes();
+            if name.ends_with(".mft") {
+                if let Ok(m) = Manifest::decode(bytes.as_ref(), true) {
+                    mft = serial_to_i64(&m.content().manifest_number());
+                }
+            }
+            else if name.ends_with(".crl") {
+                if let Ok(c) = Crl::decode(bytes.as_ref()) {
+                    crl = serial_to_i64(&c.crl_number());
+                }
+            }
+        }
+        (mft, crl)
+    }
+
+    fn project(&mut self) -> Value {
+        let krill = self.env.krill.clone();
+        let cam = krill.ca_manager();
+        let mut st = serde_json::Map::new();
+        // proxy
+        let proxy = cam.get_trust_anchor_proxy().ok();
+        let pj = proxy.as_ref().map(|p| {
+            serde_json::to_value(&**p).unwrap_or(Value::Null)
+        }).unwrap_or(Value::Null);
+        let open = pj.get("open_signer_request").and_then(|n| n.as_str())
+            .map(|n| self.nonce_id(n)).unwrap_or(0);
+        st.insert("open".into(), json!(open));
+        st.insert("nn".into(), json!(self.nonces.len()));
+        let assoc = pj.pointer("/signer/id/public_key").cloned().and_then(
+            |k| serde_json::from_value::<rpki::crypto::PublicKey>(k).ok()
+        ).map(|k| self.id_name(&k.key_identifier())).unwrap_or("none".into());
+        st.insert("assoc".into(), json!(assoc));
+        let mut reqs = serde_json::Map::new();
+        let mut resp = serde_json::Map::new();
+        for child in CHILDREN {
+            let details = pj.pointer(&format!("/child_details/{child}"))
+                .cloned().unwrap_or(Value::Null);
+            reqs.insert(child.to_string(), json!(self.req_ids(
+                child, details.get("open_requests").unwrap_or(&Value::Null)
+            )));
+            resp.insert(child.to_string(), json!(self.req_ids(
+                child, details.get("open_responses").unwrap_or(&Value::Null)
+            )));
+        }
+        st.insert("reqs".into(), Value::Object(reqs));
+        st.insert("resp".into(), Value::Object(resp));
+        // TA manifest / CRL numbers: what the proxy holds ...
+        let (pmft, pcrl) = proxy.as_ref().and_then(|p| {
+            p.get_trust_anchor_objects().ok().and_then(|o| {
+                o.publish_elements().ok()
+            })
+        }).map(|files| Self::numbers(&files)).unwrap_or((-1, -1));
+        st.insert("pnum".into(), json!([pmft, pcrl]));
+        // ... and what the repository serves for the TA
+        let (rmft, rcrl) = krill.repo_manager().get_publisher_details(
+            ta().convert()
+        ).map(|d| Self::numbers(&d.current_files)).unwrap_or((-1, -1));
+        st.insert("rnum".into(), json!([rmft, rcrl]));
+        // signers
+        let mut sg = serde_json::Map::new();
+        let names: Vec<String> = self.signers.keys().cloned().collect();
+        for name in names {
+            let inst = &self.signers[&name];
+            let info = inst.mgr.show().ok();
+            let (smft, scrl) = info.as_ref().and_then(|i| {
+                i.objects.publish_elements().ok()
+            }).map(|files| Self::numbers(&files)).unwrap_or((-1, -1));
+            let id = info.as_ref().map(|i| {
+                self.id_name(&i.id.public_key.key_identifier())
+            }).unwrap_or("none".into());
+            let exchanges = inst.mgr.show_exchanges().ok().map(|e| {
+                serde_json::to_value(&e).ok().and_then(|v| {
+                    v.as_array().map(|a| a.len())
+                }).unwrap_or(0)
+            }).unwrap_or(0);
+            sg.insert(name, json!({
+                "id": id, "num": [smft, scrl], "done": exchanges,
+            }));
+        }
+        st.insert("signers".into(), Value::Object(sg));
+        // children: pending requests and keys holding a certificate
+        let mut want = serde_json::Map::new();
+        let mut have = serde_json::Map::new();
+        for child in CHILDREN {
+            let mut w = Vec::new();
+            let mut h = Vec::new();
+            if let Ok(ca) = cam.get_ca(&world::ca_handle(child)) {
+                let parent = ta().convert();
+                for (_, reqs) in ca.cert_requests(&parent) {
+                    for req in reqs {
+                        let ki = req.csr().public_key().key_identifier();
+                        w.push(format!("i:{}", self.ckey_name(child, &ki)));
+                    }
+                }
+                for (_, reqs) in ca.revoke_requests(&parent) {
+                    for req in reqs {
+                        w.push(format!(
+                            "r:{}", self.ckey_name(child, &req.key())
+                        ));
+                    }
+                }
+                let info = serde_json::to_value(ca.as_ca_info())
+                    .unwrap_or(Value::Null);
+                collect_cert_keys(&info, &mut |ki| {
+                    h.push(self.ckey_name(child, &ki));
+                });
+            }
+            w.sort();
+            w.dedup();
+            h.sort();
+            h.dedup();
+            want.insert(child.to_string(), json!(w));
+            have.insert(child.to_string(), json!(h));
+        }
+        st.insert("want".into(), Value::Object(want));
+        st.insert("have".into(), Value::Object(have));
+        Value::Object(st)
+    }
+
+    /// Fingerprints of the functional state: proxy (without the version
+    /// counter: krill records refused commands in its audit trail, which
+    /// is not a change of state), TA objects in the repository, signers.
+    fn finger(&self) -> BTreeMap<String, u64> {
+        let mut parts = BTreeMap::new();
+        let cam = self.env.krill.ca_manager();
+        let proxy = cam.get_trust_anchor_proxy().map(|p| {
+            let mut v = serde_json::to_value(&*p).unwrap_or(Value::Null);
+            if let Some(map) = v.as_object_mut() {
+                map.remove("version");
+            }
+            canon(&v)
+        }).unwrap_or_default();
+        parts.insert("proxy".into(), hash_str(&proxy));
+        let repo = self.env.krill.repo_manager().get_publisher_details(
+            ta().convert()
+        ).map(|d| canon(&d)).unwrap_or_default();
+        parts.insert("repo".into(), hash_str(&repo));
+        for (name, inst) in &self.signers {
+            let info = inst.mgr.show().map(|i| canon(&i)).unwrap_or_default();
+            let ex = inst.mgr.show_exchanges().map(|e| canon(&e))
+                .unwrap_or_default();
+            parts.insert(name.clone(), hash_str(&format!("{info}{ex}")));
+        }
+        parts
+    }
+}
+
+//--- actions ---------------------------------------------------------------
+
+type Res = Result<Value, String>;
+
+impl World {
+    fn publish_ta(&self) {
+        let _ = self.env.krill.ca_manager().cas_repo_sync_single(
+            &ta(), 0, &self.env.slow
+        );
+    }
+
+    fn open_nonce(&self) -> Option<String> {
+        let proxy = self.env.krill.ca_manager().get_trust_anchor_proxy()
+            .ok()?;
+        let pj = serde_json::to_value(&*proxy).ok()?;
+        pj.get("open_signer_request").and_then(|n| n.as_str()).map(|n| {
+            n.to_string()
+        })
+    }
+
+    /// Who signed a message (model name of the identity key under which
+    /// the signed part validates), "?" if none of the known ones.
+    fn signed_by(&self, msg: &Value) -> String {
+        let Some(signed) = msg.get("signed").cloned() else {
+            return "?".into()
+        };
+        let Ok(signed) = serde_json::from_value::<
+            krill::api::ta::TrustAnchorSignedMessage
+        >(signed) else {
+            return "?".into()
+        };
+        let mut keys: Vec<(String, rpki::crypto::PublicKey)> = Vec::new();
+        let cam = self.env.krill.ca_manager();
+        if let Ok(id) = cam.ta_proxy_id() {
+            keys.push(("pA".into(), id.public_key.clone()));
+        }
+        if let Some(b) = &self.env_b {
+            if let Ok(id) = b.krill.ca_manager().ta_proxy_id() {
+                keys.push(("pB".into(), id.public_key.clone()));
+            }
+        }
+        for (key, name) in &self.known_keys {
+            keys.push((name.clone(), key.clone()));
+        }
+        for (name, key) in keys {
+            if signed.validate(&key).is_ok() {
+                return name
+            }
+        }
+        "?".into()
+    }
+
+    /// Abstract description of a real message.
+    fn describe(&mut self, t: &str, msg: &Value) -> Value {
+        let by = self.signed_by(msg);
+        let body = msg.get(if t == "req" { "request" } else { "response" })
+            .cloned().unwrap_or(Value::Null);
+        let nonce = body.get("nonce").and_then(|n| n.as_str()).map(|n| {
+            self.nonce_id(n)
+        }).unwrap_or(0);
+        let mut content = Vec::new();
+        if t == "req" {
+            for cr in body.get("child_requests").and_then(|c| c.as_array())
+                .cloned().unwrap_or_default()
+            {
+                let child = cr.get("child").and_then(|c| c.as_str())
+                    .unwrap_or("?").to_string();
+                for id in self.req_ids(
+                    &child, cr.get("requests").unwrap_or(&Value::Null)
+                ) {
+                    content.push(json!([child, id]));
+                }
+            }
+            content.sort_by_key(|c| c.to_string());
+            json!({"t": "req", "nonce": nonce, "by": by,
+                   "content": content, "num": [0, 0]})
+        }
+        else {
+            if let Some(map) = body.get("child_responses").and_then(|c| {
+                c.as_object()
+            }) {
+                for (child, responses) in map {
+                    for id in self.req_ids(child, responses) {
+                        content.push(json!([child, id]));
+                    }
+                }
+            }
+            content.sort_by_key(|c| c.to_string());
+            let files = body.get("objects").cloned().and_then(|o| {
+                serde_json::from_value::<krill::api::ta::TrustAnchorObjects>(
+                    o
+                ).ok()
+            }).and_then(|o| o.publish_elements().ok()).unwrap_or_default();
+            let (mft, crl) = Self::numbers(&files);
+            json!({"t": "resp", "nonce": nonce, "by": by,
+                   "content": content, "num": [mft, crl]})
+        }
+    }
+
+    fn push_msg(&mut self, t: &'static str, msg: Value) -> Value {
+        let desc = self.describe(t, &msg);
+        self.msgs.push(Msg { t, json: msg });
+        desc
+    }
+
+    fn sync(&mut self, a: &Value) -> Res {
+        let child = world::ca_handle(str_arg(a, "c"));
+        world::sync_parent(&self.env, &child, &ta()).map(|_| json!({}))
+    }
+
+    fn roll(&mut self, a: &Value) -> Res {
+        let actor = world::actor(&self.env);
+        self.env.krill.ca_manager().ca_keyroll_init(
+            world::ca_handle(str_arg(a, "c")), Duration::seconds(0),
+            &actor, &self.env.krill,
+        ).map(|_| json!({})).map_err(|e| e.to_string())
+    }
+
+    fn activate(&mut self, a: &Value) -> Res {
+        let actor = world::actor(&self.env);
+        self.env.krill.ca_manager().ca_keyroll_activate(
+            world::ca_handle(str_arg(a, "c")), Duration::seconds(0),
+            &actor, &self.env.krill,
+        ).map(|_| json!({})).map_err(|e| e.to_string())
+    }
+
+    fn make_req(&mut self, get_only: bool) -> Res {
+        let actor = world::actor(&self.env);
+        let cam = self.env.krill.ca_manager();
+        let req = if get_only {
+            cam.ta_proxy_signer_get_request(&self.env.krill)
+        } else {
+            cam.ta_proxy_signer_make_request(&actor, &self.env.krill)
+        }.map_err(|e| e.to_string())?;
+        let req = TrustAnchorSignedRequest::from(req);
+        let msg = serde_json::to_value(&req).map_err(|e| e.to_string())?;
+        Ok(json!({"msg": self.push_msg("req", msg)}))
+    }
+
+    /// A request made and signed by another proxy instance.
+    fn other_proxy_req(&mut self) -> Res {
+        if self.env_b.is_none() {
+            let env = Env::create(&self.dir.join("b"), EnvOpts::default())?;
+            env.krill.ca_manager().ta_proxy_init(&env.krill).map_err(|e| {
+                format!("proxy B: {e}")
+            })?;
+            self.env_b = Some(env);
+        }
+        let env = self.env_b.as_ref().unwrap();
+        let actor = world::actor(env);
+        let cam = env.krill.ca_manager();
+        let req = match cam.ta_proxy_signer_make_request(&actor, &env.krill) {
+            Ok(req) => req,
+            Err(_) => cam.ta_proxy_signer_get_request(&env.krill).map_err(
+                |e| e.to_string()
+            )?,
+        };
+        let req = TrustAnchorSignedRequest::from(req);
+        let msg = serde_json::to_value(&req).map_err(|e| e.to_string())?;
+        Ok(json!({"msg": self.push_msg("req", msg)}))
+    }
+
+    /// The message of action `a` with its variant applied; None if the
+    /// reference cannot be resolved (generator artefact).
+    fn variant(&mut self, a: &Value, t: &str) -> Option<Value> {
+        let i = int_arg(a, "i") as usize;
+        if i == 0 || i > self.msgs.len() || self.msgs[i - 1].t != t {
+            return None
+        }
+        let body_key = if t == "req" { "request" } else { "response" };
+        let mut msg = self.msgs[i - 1].json.clone();
+        let open = self.open_nonce();
+        // the nonce an attacker would want to present
+        let wanted = open.clone().or_else(|| self.nonces.last().cloned())
+            .unwrap_or_else(|| "00000000-0000-4000-8000-000000000000".into());
+        match str_arg(a, "v") {
+            "orig" => { }
+            "tnonce" => {
+                if msg[body_key]["nonce"] == json!(wanted) {
+                    return None
+                }
+                msg[body_key]["nonce"] = json!(wanted);
+            }
+            "tcontent" => {
+                if t == "resp" {
+                    let n = msg["response"]["objects"]["revision"]["number"]
+                        .as_u64()?;
+                    msg["response"]["objects"]["revision"]["number"]
+                        = json!(n + 7);
+                }
+                else {
+                    let reqs = msg["request"]["child_requests"]
+                        .as_array_mut()?;
+                    if reqs.is_empty() {
+                        return None
+                    }
+                    reqs[0]["resources"] = json!({
+                        "asn": "AS0-AS4294967295", "ipv4": "0.0.0.0/0",
+                        "ipv6": "::/0"
+                    });
+                }
+            }
+            "swap" => {
+                let k = int_arg(a, "k") as usize;
+                if k == 0 || k > self.msgs.len() || k == i
+                    || self.msgs[k - 1].t != t
+                {
+                    return None
+                }
+                let other = self.msgs[k - 1].json.clone();
+                if other[body_key] == msg[body_key] {
+                    return None
+                }
+                msg[body_key] = other[body_key].clone();
+            }
+            v @ ("rsrand" | "rsproxy") => {
+                // the same content, with the nonce the receiver waits
+                // for, properly signed - by the wrong key
+                let signer = self.env.krill.signer();
+                let key = if v == "rsproxy" {
+                    self.env.krill.ca_manager().ta_proxy_id().ok()?
+                        .public_key.key_identifier()
+                } else {
+                    if self.rand_key.is_none() {
+                        let cert = signer.create_self_signed_id_cert().ok()?;
+                        self.known_keys.push((
+                            cert.public_key().clone(), "kr".into()
+                        ));
+                        self.rand_key = Some(
+                            cert.public_key().key_identifier()
+                        );
+                    }
+                    self.rand_key?
+                };
+                let mut body = msg[body_key].clone();
+                if t == "resp" {
+                    body["nonce"] = json!(wanted);
+                    let content: TrustAnchorSignerResponse
+                        = serde_json::from_value(body).ok()?;
+                    let signed = content.sign(14, key, signer).ok()?;
+                    msg = serde_json::to_value(&signed).ok()?;
+                }
+                else {
+                    let content: TrustAnchorSignerRequest
+                        = serde_json::from_value(body).ok()?;
+                    let signed = content.sign(key, 14, signer).ok()?;
+                    msg = serde_json::to_value(&signed).ok()?;
+                }
+            }
+            _ => return None,
+        }
+        Some(msg)
+    }
+
+    fn sign(&mut self, a: &Value) -> Res {
+        let name = str_arg(a, "s").to_string();
+        let Some(msg) = self.variant(a, "req") else {
+            return Ok(json!({"skip": true}))
+        };
+        let eff = self.describe("req", &msg);
+        let request: TrustAnchorSignedRequest = serde_json::from_value(msg)
+            .map_err(|e| format!("altered request does not parse: {e}"))?;
+        let inst = self.signers.get(&name).ok_or("unknown signer")?;
+        let outcome = guarded(|| inst.mgr.process(request, None));
+        match outcome {
+            Outcome::Ok(Ok(response)) => {
+                let msg = serde_json::to_value(&response).map_err(|e| {
+                    e.to_string()
+                })?;
+                // learn the signer's identity key
+                Ok(json!({"eff": eff, "msg": self.push_msg("resp", msg)}))
+            }
+            Outcome::Ok(Err(e)) => {
+                Ok(json!({"eff": eff, "refused": short(&e.to_string())}))
+            }
+            Outcome::Panic(m) | Outcome::Crash(m) => {
+                Ok(json!({"eff": eff, "refused": format!("panic {m}"),
+                          "panic": true}))
+            }
+        }
+    }
+
+    fn resp(&mut self, a: &Value) -> Res {
+        let Some(msg) = self.variant(a, "resp") else {
+            return Ok(json!({"skip": true}))
+        };
+        let eff = self.describe("resp", &msg);
+        let response: TrustAnchorSignedResponse = serde_json::from_value(msg)
+            .map_err(|e| format!("altered response does not parse: {e}"))?;
+        let actor = world::actor(&self.env);
+        let krill = self.env.krill.clone();
+        let outcome = guarded(|| {
+            krill.ca_manager().ta_proxy_signer_process_response(
+                response, &actor, &krill
+            )
+        });
+        match outcome {
+            Outcome::Ok(Ok(())) => {
+                self.publish_ta();
+                Ok(json!({"eff": eff}))
+            }
+            Outcome::Ok(Err(e)) => {
+                Ok(json!({"eff": eff, "refused": short(&e.to_string())}))
+            }
+            Outcome::Panic(m) | Outcome::Crash(m) => {
+                Ok(json!({"eff": eff, "refused": format!("panic {m}"),
+                          "panic": true}))
+            }
+        }
+    }
+
+    /// The signer is initialised again (same TA key, new identity, the
+    /// numbering continued by the operator) and the proxy is told.
+    fn reassoc(&mut self) -> Res {
+        let actor = world::actor(&self.env);
+        let current = self.env.krill.ca_manager().get_trust_anchor_proxy()
+            .ok().and_then(|p| {
+                p.get_trust_anchor_objects().ok().map(|o| {
+                    o.revision().number()
+                })
+            }).ok_or("no TA objects")?;
+        self.reinits += 1;
+        let idname = format!("g{}", 2 + self.reinits);
+        self.init_signer("S1", &idname, true, current + 1)?;
+        let info = self.signers["S1"].mgr.show().map_err(|e| e.to_string())?;
+        self.env.krill.ca_manager().ta_proxy_signer_update(
+            info, &actor, &self.env.krill
+        ).map_err(|e| e.to_string())?;
+        self.publish_ta();
+        Ok(json!({}))
+    }
+}
+
+fn changed(
+    before: &BTreeMap<String, u64>, after: &BTreeMap<String, u64>
+) -> Vec<String> {
+    let keys: BTreeSet<&String> = before.keys().chain(after.keys()).collect();
+    keys.into_iter().filter(|k| before.get(*k) != after.get(*k)).cloned()
+        .collect()
+}
+
+fn serial_to_i64(serial: &rpki::repository::x509::Serial) -> i64 {
+    let text = serial.to_string();
+    text.parse::<i64>().unwrap_or_else(|_| {
+        i64::from_str_radix(&text, 16).unwrap_or(-2)
+    })
+}
+
+/// Finds the keys for which a CA holds a certificate (walks the JSON of
+/// `CertAuthInfo`: every object with an "incoming_cert").
+fn collect_cert_keys(v: &Value, f: &mut dyn FnMut(KeyIdentifier)) {
+    match v {
+        Value::Object(map) => {
+            if let (Some(key), Some(_)) = (
+                map.get("key_id").and_then(|k| k.as_str()),
+                map.get("incoming_cert"),
+            ) {
+                if let Ok(ki) = KeyIdentifier::from_str(key) {
+                    f(ki);
+                }
+            }
+            for val in map.values() {
+                collect_cert_keys(val, f);
+            }
+        }
+        Value::Array(items) => {
+            for item in items {
+                collect_cert_keys(item, f);
+            }
+        }
+        _ => { }
+    }
+}
+
+pub fn run(behaviours: &Path, out: &Path, workdir: &Path) {
+    let behaviours = read_ndjson(behaviours);
+    let mut trace = TraceOut::create(out);
+    for (idx, beh) in behaviours.iter().enumerate() {
+        let id = beh.get("id").cloned().unwrap_or(json!(idx));
+        let actions = beh.get("actions").and_then(|a| a.as_array()).cloned()
+            .unwrap_or_default();
+        refill_keys((idx * 53 + int_arg(beh, "keyoff") as usize) % 1400);
+        let dir = workdir.join(format!("b{idx}"));
+        let mut w = match World::create(&dir) {
+            Ok(w) => w,
+            Err(e) => {
+                eprintln!("set-up failed for behaviour {id}: {e}");
+                std::process::exit(3);
+            }
+        };
+        let st = w.project();
+        trace.push(&json!({"ev": "reset", "behaviour": id, "st": st}));
+        for a in &actions {
+            let name = str_arg(a, "a");
+            let mut ev = serde_json::Map::new();
+            ev.insert("ev".into(), json!(name));
+            for (k, v) in a.as_object().unwrap() {
+                if k != "a" {
+                    ev.insert(k.clone(), v.clone());
+                }
+            }
+            let before = w.finger();
+            let res = match name {
+                "Sync" => w.sync(a),
+                "Roll" => w.roll(a),
+                "Activate" => w.activate(a),
+                "MakeReq" => w.make_req(false),
+                "GetReq" => w.make_req(true),
+                "OtherProxyReq" => w.other_proxy_req(),
+                "Sign" => w.sign(a),
+                "Resp" => w.resp(a),
+                "Reassoc" => w.reassoc(),
+                other => {
+                    eprintln!("unknown action {other}");
+                    std::process::exit(2);
+                }
+            };
+            let after = w.finger();
+            ev.insert("chg".into(), json!(changed(&before, &after)));
+            match res {
+                Ok(extra) => {
+                    let refused = extra.get("refused").is_some();
+                    let skip = extra.get("skip").is_some();
+                    ev.insert("res".into(), json!(
+                        if skip { "skip" } else if refused { "err" }
+                        else { "ok" }
+                    ));
+                    for (k, v) in extra.as_object().unwrap() {
+                        ev.insert(k.clone(), v.clone());
+                    }
+                }
+                Err(e) => {
+                    ev.insert("res".into(), json!("err"));
+                    ev.insert("refused".into(), json!(short(&e)));
+                }
+            }
+            ev.insert("st".into(), w.project());
+            trace.push(&Value::Object(ev));
+        }
+        drop(w);
+        let _ = std::fs::remove_dir_all(&dir);
+    }
+    trace.finish();
 }
